@@ -292,6 +292,12 @@ func (fc *followerController) NewTerm(req *proto.NewTermRequest) (*proto.NewTerm
 	fc.status = proto.ServingStatus_FENCED
 	fc.closeStreamNoMutex(nil)
 
+	// Entries that were appended but not synced yet would become visible after we have reported
+	// our head: make the log stable first, so that the reported head really is the end of the log
+	if err := fc.wal.Sync(context.Background()); err != nil {
+		return nil, err
+	}
+
 	lastEntryId, err := getLastEntryIdInWal(fc.wal)
 	if err != nil {
 		fc.log.Warn(
